@@ -545,6 +545,84 @@ fn cases_sixseven(c: &mut Cases, rng: &mut Rng, thorough: bool) {
     }
 }
 
+/// the near-miss alphabet of property C04: 52 cards, blank, single-bit corruptions of three cards,
+/// flagged versions of two cards, 0xFFFFFFFF and small integers
+pub fn c04_alphabet() -> Vec<u32> {
+    let deck = layout_deck();
+    let mut v: Vec<u32> = deck.to_vec();
+    v.push(0);
+    for &w in &[deck[0], deck[17], deck[51]] {
+        for b in 0..32 {
+            v.push(w ^ (1 << b));
+        }
+    }
+    for &w in &[deck[5], deck[40]] {
+        for m in 1u32..8 {
+            v.push(w | (m << 29));
+        }
+    }
+    v.extend([u32::MAX, 1, 2, 23, u32::MAX - 1]);
+    v
+}
+
+/// the hands of the C04 stream (sizes 2..7): planted duplicates at every slot pair, a bad word at every
+/// slot, arrangements over the alphabet, arbitrary words
+pub fn c04_hands(rng: &mut Rng, thorough: bool) -> Vec<(String, Vec<u32>)> {
+    let deck = layout_deck();
+    let alpha = c04_alphabet();
+    let near: Vec<u32> = alpha[52..].to_vec();
+    let mut out: Vec<(String, Vec<u32>)> = Vec::new();
+    for n in 2..=7usize {
+        for rep in 0..3 {
+            let mut idx: Vec<usize> = (0..52).collect();
+            rng.shuffle(&mut idx);
+            let base: Vec<u32> = idx[..n].iter().map(|i| deck[*i]).collect();
+            out.push(("valid".into(), base.clone()));
+            for i in 0..n {
+                for j in 0..n {
+                    if i != j {
+                        let mut h = base.clone();
+                        h[j] = h[i];
+                        out.push(("duplicate-at-slot-pair".into(), h));
+                    }
+                }
+            }
+            for i in 0..n {
+                for (k, &bad) in near.iter().enumerate() {
+                    if rep == 0 || k % 3 == rep % 3 {
+                        let mut h = base.clone();
+                        h[i] = bad;
+                        out.push(("near-miss-at-slot".into(), h));
+                    }
+                }
+            }
+            // a duplicated near-miss, and near-miss + duplicate together
+            let mut h = base.clone();
+            h[0] = near[rep];
+            h[n - 1] = near[rep];
+            out.push(("duplicated-near-miss".into(), h));
+        }
+        for _ in 0..(if thorough { 100_000 } else { 6_000 }) {
+            let h: Vec<u32> = (0..n).map(|_| if rng.below(4) == 0 { alpha[52 + rng.below((alpha.len() - 52) as u64) as usize] } else { alpha[rng.below(52) as usize] }).collect();
+            out.push(("alphabet-arrangement".into(), h));
+        }
+        for _ in 0..(if thorough { 30_000 } else { 2_000 }) {
+            let h: Vec<u32> = (0..n).map(|_| match rng.below(3) { 0 => rng.next() as u32, 1 => alpha[rng.below(52) as usize], _ => (rng.next() as u32) & 0x1FFF_FF3F }).collect();
+            out.push(("arbitrary-words".into(), h));
+        }
+    }
+    if thorough {
+        // every arrangement of the alphabet for n = 2, and of a reduced alphabet for n = 3, 4
+        for &a in &alpha { for &b in &alpha { out.push(("all-arrangements-n2".into(), vec![a, b])); } }
+        let small: Vec<u32> = vec![deck[0], deck[1], deck[51], 0, deck[0] ^ 1, deck[1] | (1 << 29), u32::MAX, 1];
+        for &a in &small { for &b in &small { for &c in &small {
+            out.push(("all-arrangements-n3".into(), vec![a, b, c]));
+            for &d in &small { out.push(("all-arrangements-n4".into(), vec![a, b, c, d])); }
+        } } }
+    }
+    out
+}
+
 /// keys for the product search: small keys, every table key and its neighbours, powers of two, seeded
 fn find_keys(rng: &mut Rng, seeded: usize) -> Vec<u64> {
     let mut keys: Vec<u64> = (0..4100).collect();
@@ -636,6 +714,14 @@ pub fn cases(prop: &str, thorough: bool, seed: u64, c: &mut Cases) {
             }
         }
         "C02" | "C03" | "C09" => cases_sixseven(c, &mut rng, thorough),
+        "C04" => {
+            for (kind, h) in c04_hands(&mut rng, thorough) {
+                c.emit(&format!("val{}/{kind}", h.len()), &format!("val {}", join(&h)));
+                if h.len() >= 5 {
+                    c.emit(&format!("ev{}/{kind}", h.len()), &format!("ev{} {}", h.len(), join(&h)));
+                }
+            }
+        }
         "C05" => {
             for a in 0..53 {
                 c.emit("enum5b/all five-slot multisets over cards+blank with lowest symbol a", &format!("enum5b {a}"));
@@ -827,6 +913,7 @@ pub fn sweep(prop: &str, thorough: bool, seed: u64) -> Sweep {
         "C13" => sweep_c13(seed, thorough),
         "C05" => sweep_c05(seed, thorough),
         "C06" => sweep_c06(),
+        "C04" => sweep_c04(seed, thorough),
         "C02" | "C03" | "C09" => sweep_sixseven(prop, seed, thorough),
         "C07" => sweep_c07(seed, thorough),
         "C20" => sweep_c20(),
@@ -1848,4 +1935,77 @@ fn sweep_sixseven(prop: &str, seed: u64, thorough: bool) -> Sweep {
     let h = Seven::from([deck[51], deck[0], deck[20], deck[1], deck[2], deck[3], deck[4]]);
     total.sample(format!("2C AS 7H KS QS JS TS -> {:?}", guarded(|| { let (v, f) = h.hand_rank_value_and_hand(); (v, f.to_arr()) })));
     total
+}
+
+/// C04: validators and validated ranking against "52-card words, pairwise distinct".
+fn sweep_c04(seed: u64, thorough: bool) -> Sweep {
+    let mut s = Sweep::default();
+    let deck = layout_deck();
+    let mut sorted = deck;
+    sorted.sort_unstable();
+    let is_card = |w: u32| sorted.binary_search(&w).is_ok();
+    let mut rng = Rng::new(seed ^ 0xC04);
+    for (kind, h) in c04_hands(&mut rng, thorough) {
+        s.evaluations += 1;
+        s.count(&format!("n={} {kind}", h.len()), 1);
+        let want_valid = h.iter().all(|w| is_card(*w)) && (0..h.len()).all(|i| (i + 1..h.len()).all(|j| h[i] != h[j]));
+        if !want_valid { s.nontrivial += 1; }
+        let hh = H::mk(&h).unwrap();
+        let got = guarded(|| (hh.is_valid(), hh.contain_blank(), hh.is_corrupt()));
+        let want = (want_valid, h.contains(&0), h.iter().any(|w| !is_card(*w)));
+        if got != Some(want) {
+            s.fail("is_valid / contain_blank / is_corrupt differ from '52-card words, pairwise distinct'", &join(&h), &format!("{want:?}"), &format!("{got:?}"));
+        }
+        if h.len() >= 5 {
+            let vv = guarded(|| match hh {
+                H::T5(f) => (f.hand_rank_value_validated(), ckc_rs::evaluate::five_cards(f.to_arr()), f.hand_rank_validated().value),
+                H::T6(f) => (f.hand_rank_value_validated(), f.hand_rank_value_validated(), f.hand_rank_validated().value),
+                H::T7(f) => (f.hand_rank_value_validated(), f.hand_rank_value_validated(), f.hand_rank_validated().value),
+                _ => unreachable!(),
+            });
+            match vv {
+                None => s.fail("validated ranking panics", &join(&h), "returns", "panic"),
+                Some((a, b, c)) => {
+                    if a != b || a != c {
+                        s.fail("validated entry points disagree", &join(&h), &a.to_string(), &format!("{b} {c}"));
+                    }
+                    if want_valid {
+                        let plain = guarded(|| match hh {
+                            H::T5(f) => f.hand_rank_value(),
+                            H::T6(f) => f.hand_rank_value(),
+                            H::T7(f) => f.hand_rank_value(),
+                            _ => unreachable!(),
+                        });
+                        if plain != Some(a) || a == 0 {
+                            s.fail("validated ranking of a valid hand is 0 or differs from unvalidated ranking", &join(&h), &format!("{plain:?} (non-zero)"), &a.to_string());
+                        }
+                    } else if a != 0 {
+                        s.fail("validated ranking of a non-hand is not 0", &join(&h), "0", &a.to_string());
+                    }
+                }
+            }
+        }
+    }
+    // the per-slot recogniser over all 2^32 words
+    let bad: Vec<(u32, u32)> = par_ranges(1 << 32, threads() * 4, |lo, hi| {
+        let mut v = Vec::new();
+        for w in lo..hi {
+            let w = w as u32;
+            let want = if sorted.binary_search(&w).is_ok() { w } else { 0 };
+            let got = CardNumber::filter(w);
+            if got != want && v.len() < 4 {
+                v.push((w, got));
+            }
+        }
+        v
+    }).concat();
+    s.evaluations += 1 << 32;
+    s.count("filter/all-2^32-words", 1 << 32);
+    for (w, got) in bad {
+        s.fail("card recogniser (filter)", &w.to_string(), "identity on the 52 cards, blank elsewhere", &got.to_string());
+    }
+    s.rule = "hands of sizes 2..7 over {52 cards, blank, single-bit corruptions, flagged cards, 0xFFFFFFFF, small integers}: a duplicate planted at every slot pair, a near-miss at every slot, seeded arrangements and arbitrary words; validators and validated ranking against membership in the 52 layout words and pairwise inequality; the recogniser over all 2^32 words; non-trivial = the hand is not valid".into();
+    s.sample(format!("[JC 2C 23 KS TS] valid = {:?}", guarded(|| Five::from([deck[48], deck[51], 23, deck[1], deck[4]]).is_valid())));
+    s.sample(format!("five_cards([JC 2C 3C KS JC]) = {:?}", guarded(|| ckc_rs::evaluate::five_cards([deck[48], deck[51], deck[50], deck[1], deck[48]]))));
+    s
 }
